@@ -35,6 +35,10 @@ func init() { fw.Register(c10{}) }
 
 func (c10) ID() string { return "C10" }
 
+// noPollCount: a poll index no run reaches (the context of such a run is ended by an event or by the
+// monitor, never by the count).
+const noPollCount = 1 << 40
+
 // preCancelSteps: if poll k is not reached after this many steps, the context is cancelled anyway.
 const preCancelSteps = 400000
 
@@ -45,7 +49,9 @@ func (c10) Info(tier string) fw.Info {
 	return fw.Info{
 		Level: "exploration",
 		Rule: "for each of the listed programs (straight-line, empty and working infinite loops, recursion, try/catch with throws, blocking builtin, 1-4 spawned cores, a core failing; multi-module programs: work in the global initialisers of imported modules - one level, nested, diamond, an initialiser failing by itself (interpreter only) -, the same / different / several builtins imported by several modules, the loop inside an imported function, cores spawned on imported functions; fatal errors - index, division by zero, uncaught throw, unwrap of none, call stack overflow - raised while functions with names of 5/10/14/18/27 characters are on the call stack: direct, chains, recursion, function literals, inside try, in functions of a module with a long name, in a spawned core next to finite and next to never-ending cores; builtin members that loop over their receiver - sort on int/float/str lists in nine initial orders, contains, join, concat, insert, remove, push_front, pop_front, to_json, split, replace, repeat, substring, compare_lev, parse_json, rev, diff, to_range, iteration over lists, strings and reversed ranges - finite, inside infinite loops and on several cores; per seed: random-list sort programs and fatal-error programs with random name lengths 8..48, text carried in the payload) and each backend, the context is cancelled at the k-th poll for every k in 1..Kmax (VM: every k; interpreter: every k up to 60, then strides) by the host's cancel(); the same programs and backends again with the context ended the other ways a host ends it - deadline expired (Err()=DeadlineExceeded; quick: a ladder of k = 1,2,3,5,8,.. kmax, kmax+1 and three seed-chosen k, thorough: every k), cancel(cause) and deadline-with-cause (every third rung); a poll is a call of Done() or Err(); " +
-			"oracle: wait/run returns a termination interrupt or the program's own outcome (known from an uncancelled run when the program is finite); every core stops within B=10000 steps after the cancelling poll (step hook); after return no goroutine of the run has a frame in Core.Run (stack samples until 5 identical ones); the host calls (NewVM, Wait) return: a run in which no core steps any more and every goroutine inside the VM is blocked on a lock or channel (the wait idling between polls) is cancelled by the monitor if its context is still alive and refutes the property if it stays in that state; race log empty. " +
+			"index expressions at the edges of their base (families2.go): empty / drained / one-element / three-element / nested-empty lists and empty / three-character strings indexed with -1, -(len+2), len and the valid wrapping indices, as value, as assignment target and as compound-assignment target, both back ends, per seed further members of the product; " +
+			"spawn sequences (VM): main spawns short jobs and one long-running core (endless blocking-builtin loop, endless stepping loop, long finite) in six orders, with and without waiting for the jobs through globals; these and the listed programs with several finite cores run again with the moment of cancellation given by an event - the host ends the context once n = 1..N cores have finished and the wait has collected them - under two schedules: free, and 'settle' (every spawn happens after the wait has collected the cores finished so far); " +
+			"oracle: wait/run returns a termination interrupt or the program's own outcome (known from an uncancelled run when the program is finite; a program with a core that never finishes has none: the wait must not return while the context is alive); every core stops within B=10000 steps after the cancelling poll (step hook); after return no goroutine of the run has a frame in Core.Run (stack samples until 5 identical ones); the host calls (NewVM, Wait) return: a run in which no core steps any more and every goroutine inside the VM is blocked on a lock or channel (the wait idling between polls) is cancelled by the monitor if its context is still alive and refutes the property if it stays in that state; race log empty. " +
 			"non-trivial = the context actually ended during the run; distinct = (program, backend, end mode, k)",
 		Assumptions: []string{
 			"host builtins that ignore the context are the host's responsibility (the harness builtin vsleep polls it)",
@@ -79,6 +85,12 @@ type program struct {
 	// cores, which the wait then returns - that failure is "the program's own outcome if it finished
 	// first"; after the context ended the wait returns a termination interrupt or that failure
 	ownFails bool
+	// finite (programs with several cores): the number of cores, main included, that finish by
+	// themselves without failing, whatever the schedule (eventCases: cancellation after the n-th of them)
+	finite int
+	// eventOnly: the program only runs in eventCases (its subject is the order of spawns and exits, which
+	// a cancellation within the first polls never reaches)
+	eventOnly bool
 }
 
 // sources: all modules of the program, the entry module under the name "main".
@@ -110,7 +122,7 @@ func (p program) render() string {
 
 // programs: the single-module programs followed by the multi-module ones (modules.go). Payloads
 // refer to programs by index or name: only ever append.
-var programs = append(append(append(append([]program{}, singlePrograms...), modulePrograms...), fatalPrograms...), memberPrograms...)
+var programs = append(append(append(append(append(append([]program{}, singlePrograms...), modulePrograms...), fatalPrograms...), memberPrograms...), indexPrograms...), seqPrograms...)
 
 var singlePrograms = []program{
 	{name: "straight", src: `fn main() { let a = 1; let b = a + 2; println(b); println(b * 2); }`, kmaxVM: 6, kmaxTree: 40},
@@ -134,11 +146,11 @@ var singlePrograms = []program{
 	{name: "for-empty-huge", src: `fn main() { for i in 0..9000000000000000000 { } }`, infinite: true, kmaxVM: 12, kmaxTree: 30},
 	{name: "for-call-empty", src: "fn nop() { }\nfn main() { for i in 0..9000000000000000000 { nop(); } }", infinite: true, kmaxVM: 20, kmaxTree: 60},
 	{name: "retry-loop", src: "fn flaky(n: int) { if n % 2 == 0 { throw(\"flaky\"); } }\nfn main() { let attempts = 0; loop { try { flaky(attempts); flaky(attempts + 1); } catch e { attempts += 1; } } }", infinite: true, kmaxVM: 40, kmaxTree: 150},
-	{name: "spawn-1", src: "fn w(n: int) { let i = 0; while i < n { i += 1; } println(\"w\", n); }\nfn main() { spawn w(300); let j = 0; while j < 300 { j += 1; } println(\"main\"); }", multi: true, kmaxVM: 60},
+	{name: "spawn-1", finite: 2, src: "fn w(n: int) { let i = 0; while i < n { i += 1; } println(\"w\", n); }\nfn main() { spawn w(300); let j = 0; while j < 300 { j += 1; } println(\"main\"); }", multi: true, kmaxVM: 60},
 	{name: "spawn-3-inf", src: "fn w(n: int) { loop { let x = n + 1; } }\nfn main() { spawn w(1); spawn w(2); spawn w(3); loop { } }", multi: true, infinite: true, kmaxVM: 40},
-	{name: "spawn-4-mixed", src: "fn w(n: int) { let i = 0; while i < n { i += 1; } println(\"w\", n); }\nfn main() { spawn w(10); spawn w(2000); spawn w(50); spawn w(4000); println(\"main\"); }", multi: true, kmaxVM: 120},
+	{name: "spawn-4-mixed", finite: 5, src: "fn w(n: int) { let i = 0; while i < n { i += 1; } println(\"w\", n); }\nfn main() { spawn w(10); spawn w(2000); spawn w(50); spawn w(4000); println(\"main\"); }", multi: true, kmaxVM: 120},
 	{name: "spawn-fail", src: "fn bad(n: int) { let i = 0; while i < n { i += 1; } let l = [1]; println(l[7]); }\nfn w(n: int) { loop { let x = n; } }\nfn main() { spawn w(1); spawn bad(400); spawn w(2); loop { } }", multi: true, infinite: true, kmaxVM: 60},
-	{name: "spawn-early-finish", src: "fn w(n: int) { println(\"w\", n); }\nfn main() { spawn w(1); spawn w(2); let i = 0; while i < 1500 { i += 1; } println(\"main\"); }", multi: true, kmaxVM: 60},
+	{name: "spawn-early-finish", finite: 3, src: "fn w(n: int) { println(\"w\", n); }\nfn main() { spawn w(1); spawn w(2); let i = 0; while i < 1500 { i += 1; } println(\"main\"); }", multi: true, kmaxVM: 60},
 }
 
 // Payload of a cancellation case.
@@ -159,6 +171,13 @@ type Payload struct {
 	Infinite bool              `json:"infinite,omitempty"`
 	Multi    bool              `json:"multi,omitempty"`
 	OwnFails bool              `json:"own_fails,omitempty"`
+	// Settle (schedule of a VM run with several cores): every spawn happens only after the host's wait has
+	// collected the cores that had finished by then (without it a short program spawns all its cores
+	// before the wait, which idles 5 ms between two rounds, has looked at any of them).
+	Settle bool `json:"settle,omitempty"`
+	// AfterExit n > 0: the moment of cancellation is an event instead of a poll index - the host ends the
+	// context once n cores have finished and the wait has collected them (K is then out of reach).
+	AfterExit int `json:"after_exit,omitempty"`
 }
 
 // programOf: the program a payload refers to.
@@ -204,6 +223,9 @@ func endCases(tier string, seed uint64) []fw.Case {
 	var cases []fw.Case
 	rng := fw.NewRng(seed ^ 0xC10E4D)
 	for pi, p := range programs {
+		if p.eventOnly {
+			continue
+		}
 		for _, be := range []string{"vm", "tree"} {
 			kmax := p.kmaxVM
 			if be == "vm" && p.treeOnly {
@@ -242,8 +264,13 @@ func endCases(tier string, seed uint64) []fw.Case {
 
 func (c10) Cases(tier string, seed uint64) []fw.Case {
 	var cases []fw.Case
+	// first: these runs are the longest (the settled schedule waits for the host's wait at every spawn)
+	cases = append(cases, eventCases(tier, seed)...)
 	ladderRng := fw.NewRng(seed ^ 0xC105BA45E)
 	for pi, p := range programs {
+		if p.eventOnly {
+			continue
+		}
 		for k := 1; k <= p.kmaxVM+1 && !p.treeOnly; k++ {
 			cases = append(cases, fw.MkCase(fmt.Sprintf("c10-%s-vm-%d", p.name, k), "cancel", Payload{Prog: pi, Backend: "vm", K: int64(k)}))
 		}
@@ -285,6 +312,7 @@ func (c10) Cases(tier string, seed uint64) []fw.Case {
 	}
 	cases = append(cases, endCases(tier, seed)...)
 	cases = append(cases, genCases(tier, seed)...)
+	cases = append(cases, genIndexCases(tier, seed)...)
 	return cases
 }
 
@@ -445,6 +473,9 @@ func (c *countingCtx) describe() string {
 	defer c.mu.Unlock()
 	e := c.ended.Load()
 	if e == nil {
+		if c.k >= noPollCount {
+			return fmt.Sprintf("was not ended (no poll count was set for this run, %d polls so far)", c.polls)
+		}
 		return fmt.Sprintf("was not ended (k=%d, %d polls)", c.k, c.polls)
 	}
 	how := endText(c.mode)
@@ -452,7 +483,7 @@ func (c *countingCtx) describe() string {
 		how = endText(endCancel) + " by the cancel function"
 	}
 	at := fmt.Sprintf("at poll %d", c.k)
-	if c.k >= 1<<50 {
+	if c.k >= noPollCount {
 		at = "asynchronously (no poll count was set for this run)"
 	} else if c.polls < c.k {
 		at = fmt.Sprintf("asynchronously after %d polls (poll k=%d was never reached)", c.polls, c.k)
@@ -479,6 +510,35 @@ type runState struct {
 	maxAfter int64
 	total    atomic.Int64
 	steps    atomic.Int64 // all steps of all cores of the run (progress indicator for the wedge verdict)
+	// schedule and event bookkeeping (Payload.Settle / Payload.AfterExit)
+	settle    bool
+	afterExit int64
+	spawns    atomic.Int64 // cores spawned so far
+	exited    atomic.Int64 // cores that left Core.Run's loop (about to signal the wait)
+	collected atomic.Int64 // signals the wait has taken from a core
+}
+
+// waitIdle: the period the host's wait sleeps between two rounds over the cores.
+const waitIdle = runtime.VMWaitIdleSleep
+
+// settleSpawn (hook at the start of a spawn, on the spawning goroutine): lets the cores that are about
+// to finish do so and the wait collect them before the new core is created. Scheduling only: nothing
+// here enters a verdict.
+func (st *runState) settleSpawn() {
+	if st.spawns.Add(1) == 1 {
+		return // the host spawning main: nothing runs yet
+	}
+	// in slices, and not at all once the context has ended: a core must not be held back from stopping
+	const slice = 250 * time.Microsecond
+	nap := func(d time.Duration, while func() bool) {
+		for ; d > 0 && !st.cc.closed.Load() && while(); d -= slice {
+			time.Sleep(slice)
+		}
+	}
+	nap(waitIdle/2, func() bool { return true })
+	nap(2*waitIdle, func() bool { return st.collected.Load() < st.exited.Load() })
+	// the wait removes the collected core from its list right after the hook
+	nap(time.Millisecond, func() bool { return true })
 }
 
 var (
@@ -511,6 +571,25 @@ func installHooks() {
 			st.mu.Unlock()
 			if n > StepBound {
 				panic(fw.StepBudgetMsg)
+			}
+		}
+		runtime.VerifCoreExit = func(*runtime.Core) {
+			if st := cur.Load(); st != nil {
+				st.exited.Add(1)
+			}
+		}
+		runtime.VerifYield = func(site string) {
+			st := cur.Load()
+			if st == nil {
+				return
+			}
+			switch site {
+			case "wait-gap", "wait-gap-err":
+				st.collected.Add(1)
+			case "spawn":
+				if st.settle {
+					st.settleSpawn()
+				}
 			}
 		}
 	})
@@ -767,6 +846,10 @@ func runTree(p Payload, pg program, ao drive.AnalyzeOut, src drive.Sources, res 
 	case !cc.closed.Load() && !pg.infinite && !sameOutcome(out, own):
 		res.Verdict, res.Sig = fw.Violated, "tree:outcome-changed-without-cancel"
 		res.Why = fmt.Sprintf("without cancellation the interpreter returned %s, expected %s", out, own)
+	case !cc.closed.Load() && pg.infinite:
+		res.Nontrivial = true
+		res.Verdict, res.Sig = fw.Violated, "tree:run-returned-before-cancel:"+out.Class
+		res.Why = fmt.Sprintf("homescript.Run returned %s although the context %s and the program %s never finishes", out, cc.describe(), pg.name)
 	}
 	return res
 }
@@ -822,7 +905,7 @@ func runVM(p Payload, pg program, ao drive.AnalyzeOut, src drive.Sources, res fw
 	if p.ArmEarly {
 		cc.arm()
 	}
-	st := &runState{cc: cc, after: map[uint]int64{}}
+	st := &runState{cc: cc, after: map[uint]int64{}, settle: p.Settle, afterExit: int64(p.AfterExit)}
 	installHooks()
 	cur.Store(st)
 	mu := &st.mu
@@ -856,6 +939,10 @@ func runVM(p Payload, pg program, ao drive.AnalyzeOut, src drive.Sources, res fw
 		fail("vm:wrong-outcome:"+out.Class, fmt.Sprintf("after the context %s the wait returned %s (own outcome %s) for program %s", cc.describe(), out, own, pg.name))
 	case !cc.closed.Load() && !pg.infinite && out.Class != own.Class:
 		fail("vm:outcome-changed-without-cancel", fmt.Sprintf("without cancellation the wait returned %s, expected %s", out, own))
+	case !cc.closed.Load() && pg.infinite && !(pg.ownFails && out.Class == "fatal"):
+		// the program has a core that never finishes and nobody ended the context: the wait has nothing to return
+		res.Nontrivial = true
+		fail("vm:wait-returned-before-cancel:"+out.Class, fmt.Sprintf("the wait returned %s although the context %s and the program %s has a core that never finishes: the wait stopped waiting for a running core (no termination interrupt, nothing for the host to cancel any more)", out, cc.describe(), pg.name))
 	}
 	// leak check
 	n, dump, stable := stableCoreGoroutines()
@@ -863,6 +950,18 @@ func runVM(p Payload, pg program, ao drive.AnalyzeOut, src drive.Sources, res fw
 		res.Cover = append(res.Cover, "leak-sample-unstable")
 	} else if n > base {
 		fail("vm:core-goroutine-left", fmt.Sprintf("%d goroutine(s) still inside Core.Run after the wait returned (program %s, context %s):\n%s", n-base, pg.name, cc.describe(), util.Clip(dump, 1500)))
+	}
+	if !cc.closed.Load() {
+		// the wait is over: whatever it left running is not to burden the later cases of this worker
+		cc.endNow()
+		stableCoreGoroutines()
+	}
+	if p.Settle {
+		res.Cover = append(res.Cover, "schedule:settle")
+	}
+	if p.AfterExit > 0 {
+		res.Cover = append(res.Cover, "cancel-at:core-exit")
+		res.Obs["cores_exited"] = st.exited.Load()
 	}
 	if p.K == 3 {
 		res.Sample = map[string]any{"program": pg.name, "src": pg.render(), "backend": "vm", "k": p.K, "end": p.end(), "outcome": out.String(), "polls": cc.polls, "max_steps_after_cancel": maxAfter}
@@ -917,6 +1016,7 @@ func hostRun(prog compiler.CompileOutput, exec drive.VMExec, ctx *context.Contex
 	}()
 	wedged, lastSteps := 0, int64(-1)
 	var spin spinWatch
+	eventRounds := 0
 	for i := 0; ; i++ {
 		select {
 		case r := <-done:
@@ -924,6 +1024,14 @@ func hostRun(prog compiler.CompileOutput, exec drive.VMExec, ctx *context.Contex
 		default:
 		}
 		time.Sleep(200 * time.Microsecond)
+		if cc != nil && st.afterExit > 0 && !cc.closed.Load() && st.exited.Load() >= st.afterExit {
+			// cancellation at an event: afterExit cores have finished; the host cancels once the wait has
+			// collected them (or has had four of its idle periods to do so)
+			eventRounds++
+			if (st.collected.Load() >= st.exited.Load() && eventRounds >= 5) || eventRounds >= 20*int(waitIdle/time.Millisecond) {
+				cc.endNow()
+			}
+		}
 		if i%50 == 49 {
 			// no core steps, nothing is blocked, but Go code of the repository keeps a processor busy
 			if where := spin.check(st.steps.Load()); where != "" {
